@@ -1261,6 +1261,23 @@ func TestServiceTimeoutPlugin(t *testing.T) {
 			}
 			client := srv.Client(0)
 			id := atomic.AddInt64(&caseSeq, 1)
+			base := settle(0, 0)
+			base = settle(base, 0)
+			// first a few more calls that overrun the deadline and whose functions return later: nothing of
+			// them may stay behind
+			var extra []*call
+			for e := 0; e < 6; e++ {
+				extra = append(extra, startCall(client, "gated", fmt.Sprintf("t-%d-e%d", id, e), time.Now()))
+			}
+			for _, e := range extra {
+				select {
+				case <-e.done:
+				case <-time.After(time.Duration(ms)*time.Millisecond + 3*time.Second):
+				}
+			}
+			for _, e := range extra {
+				release(e.tag)
+			}
 			t0 := time.Now()
 			x := startCall(client, "gated", fmt.Sprintf("t-%d-x", id), t0)
 			problem := ""
@@ -1289,6 +1306,11 @@ func TestServiceTimeoutPlugin(t *testing.T) {
 			}
 			client.Abort()
 			srv.Close()
+			if problem == "" {
+				if p := leakReport(base); p != "" {
+					problem = "after calls that overran the execute timeout and whose functions returned later: " + p
+				}
+			}
 			ev.S.Case("service-timeout", canon, true, "service-timeout="+kind)
 			report(t, "service-timeout", "TestServiceTimeoutPlugin", canon, problem)
 		}
